@@ -82,8 +82,20 @@ pub struct Puppet {
     /// Puppets whose timeout for the current trickle reported the genesis QC (candidates for a
     /// later re-send reporting a higher QC).
     sent_low_timeouts: Vec<usize>,
+    /// C07 in W2: a certified parent is withheld while blocks on top of it keep arriving.
+    starve: Option<Starve>,
+    starve_done: bool,
+    /// After a starve episode the node holds many parked blocks; the expectation model (expected
+    /// vote, exactly-when) is switched off for the rest of the run.
+    model_uncertain: bool,
     /// Content identities of every valid variant (same digest) the node may have stored.
     variants: HashMap<Digest, HashSet<Digest>>,
+}
+
+struct Starve {
+    parent: Digest,
+    first_req: Option<(u64, usize)>,
+    steps: usize,
 }
 
 fn sign(d: &Digest, s: &SecretKey) -> Signature {
@@ -140,6 +152,9 @@ impl Puppet {
             expect_cert: None,
             own_vote_counted: false,
             sent_low_timeouts: Vec::new(),
+            starve: None,
+            starve_done: false,
+            model_uncertain: false,
             variants: HashMap::new(),
         }
     }
@@ -270,7 +285,86 @@ impl Puppet {
 
     // ---- the step policy ------------------------------------------------------------------
 
+    /// C07 ("an unanswered request is retried with other peers"), exact in W2: the node is given a
+    /// block whose certified parent the harness withholds; the first sync request stays
+    /// unanswered while, round after round, further blocks on top of the same missing parent
+    /// arrive (what repeated view changes produce). The node must ask the other peers for the
+    /// parent within sync_retry_delay plus the timer granularity.
+    fn start_starve(&mut self) -> bool {
+        let r = self.round_upper.max(self.node_round_estimate()).max(self.tip.1 + 1);
+        let (l0, l1) = (self.members.leader_index(r), self.members.leader_index(r + 1));
+        if l0 == self.real || l1 == self.real || self.tip.1 + 1 != r || self.tip.1 < 2 {
+            return false;
+        }
+        let parent = self.mk_block(l0, r, self.tip_qc(), None, vec![]);
+        let pd = ident::block_digest(&parent);
+        let signers = self.quorum_of_puppets();
+        let qc = self.mk_qc(&pd, r, &signers);
+        self.known.insert(pd.clone(), parent.clone());
+        self.variants.entry(pd.clone()).or_default().insert(ident::content_id(&parent));
+        self.qc_for.insert(pd.clone(), qc.clone());
+        self.withheld.insert(pd.clone());
+        self.tip = (pd.clone(), r);
+        let child = self.mk_block(l1, r + 1, qc, None, vec![]);
+        self.deliver_valid_block(l1, &child);
+        self.starve = Some(Starve { parent: pd, first_req: None, steps: 0 });
+        self.model_uncertain = true;
+        self.expect_vote = None;
+        self.expect_cert = None;
+        self.probe("puppet.starve-started");
+        true
+    }
+
+    fn starve_step(&mut self) {
+        let retry_us = self.c.sc.params[self.real].sync_retry_delay * 1_000;
+        let now = self.c.net.now_us();
+        let (parent, first_req, steps) = {
+            let st = self.starve.as_mut().unwrap();
+            st.steps += 1;
+            (st.parent.clone(), st.first_req, st.steps)
+        };
+        let overdue = first_req.map_or(false, |(t, _)| now > t + retry_us + 12_000_000);
+        if overdue {
+            self.violate("C07", "unanswered-request-not-retried", format!("the node asked one peer for block {} and, {} us later and still lacking it, had not asked anybody else although further blocks on top of it kept arriving", ident::short(&parent), now - first_req.unwrap().0));
+        }
+        if overdue || steps > 70 || !self.withheld.contains(&parent) {
+            // Release the parent (if still withheld) and go back to normal operation.
+            if self.withheld.remove(&parent) {
+                if let Some(b) = self.known.get(&parent).cloned() {
+                    let from = self.members.index(&b.author).unwrap_or(0);
+                    self.valid_delivered.insert(parent.clone());
+                    self.invalid_only.remove(&parent);
+                    self.send_cons(from, &ConsensusMessage::Propose(b));
+                }
+            }
+            self.starve = None;
+            self.starve_done = true;
+            return;
+        }
+        // Another timed-out round: a TC for the node's round, then the next leader's proposal on
+        // top of the same (missing) parent.
+        let rr = self.round_upper.max(self.node_round_estimate());
+        let signers = self.quorum_of_puppets();
+        let highs: Vec<Round> = signers.iter().map(|_| self.tip.1).collect();
+        let tc = self.mk_tc(rr, &signers, &highs);
+        self.note_valid_cert_delivered(rr);
+        self.send_cons(signers[0], &ConsensusMessage::TC(tc.clone()));
+        let leader = self.members.leader_index(rr + 1);
+        if leader != self.real {
+            let b = self.mk_block(leader, rr + 1, self.tip_qc(), Some(tc), vec![]);
+            self.deliver_valid_block(leader, &b);
+            self.probe("puppet.starve-same-parent-block");
+        }
+    }
+
     fn act(&mut self) {
+        if self.starve.is_some() {
+            self.starve_step();
+            return;
+        }
+        if !self.starve_done && self.trickle_votes.is_none() && self.trickle_timeouts.is_none() && self.step > 20 && self.r.chance(self.cfg.p_withhold_parent * 0.2) && self.start_starve() {
+            return;
+        }
         // Continue an ongoing trickle of votes / timeouts first (one message per step).
         if self.trickle_votes.is_some() {
             self.trickle_vote_step();
@@ -427,7 +521,7 @@ impl Puppet {
         // The node is in round r after this block at the latest.
         if votable {
             let next_leader = self.members.leader_index(r + 1);
-            if next_leader != self.real {
+            if next_leader != self.real && !self.model_uncertain {
                 self.expect_vote = Some((r, d.clone()));
             }
             self.blocked_round = self.blocked_round.max(r);
@@ -479,7 +573,7 @@ impl Puppet {
         if sent_stake + self.members.stakes[self.real] as u64 >= q {
             self.note_valid_cert_delivered(r);
         }
-        if before + own < q && sent_stake + own >= q && !self.mute_ack {
+        if before + own < q && sent_stake + own >= q && !self.mute_ack && !self.model_uncertain {
             // C19 exactly-when: the QC exists now, so the node (leader of r + 1) proposes now.
             self.expect_cert = Some(("proposal", r + 1));
         }
@@ -562,7 +656,7 @@ impl Puppet {
         }
         let own = if self.node_timeouts.contains_key(&r) { own_possible } else { 0 };
         let q = self.members.quorum();
-        if before + own < q && stake + own >= q && self.round_seen <= r && self.round_upper <= r + 1 {
+        if before + own < q && stake + own >= q && self.round_seen <= r && self.round_upper <= r + 1 && !self.model_uncertain {
             // C19 exactly-when: the node assembles and broadcasts the TC of round r now.
             self.expect_cert = Some(("tc", r));
         }
@@ -1059,10 +1153,30 @@ impl Puppet {
                         }
                         ConsensusMessage::SyncRequest(d, _) => {
                             // The node asks puppet ev.dst() for a block.
+                            let now = self.c.net.now_us();
+                            let mut retried = false;
+                            if let Some(st) = self.starve.as_mut() {
+                                if st.parent == d {
+                                    match st.first_req {
+                                        None => st.first_req = Some((now, ev.dst())),
+                                        Some((_, first)) if first != ev.dst() => retried = true,
+                                        _ => {}
+                                    }
+                                }
+                            }
+                            if retried {
+                                // The retry reached another peer: serve it now.
+                                self.withheld.remove(&d);
+                                self.probe("puppet.starve-retry-seen");
+                            }
                             if self.withheld.contains(&d) {
                                 self.probe("puppet.sync-request-ignored");
                             } else if let Some(b) = self.known.get(&d).cloned() {
                                 let p = ev.dst();
+                                // A valid variant is now on its way: the digest is no longer
+                                // "invalid only".
+                                self.valid_delivered.insert(d.clone());
+                                self.invalid_only.remove(&d);
                                 self.send_cons(p, &ConsensusMessage::Propose(b));
                                 self.probe("puppet.sync-request-served");
                             }
@@ -1239,7 +1353,13 @@ impl Puppet {
             self.c.obs.lock().unwrap().ext.step = step as u64;
             let wait_timer = matches!(self.trickle_timeouts, Some((_, _, _, true)));
             self.act();
-            let dur = if wait_timer { timeout_us + self.cfg.settle_us } else { self.cfg.settle_us };
+            let dur = if wait_timer {
+                timeout_us + self.cfg.settle_us
+            } else if self.starve.is_some() {
+                400_000
+            } else {
+                self.cfg.settle_us
+            };
             self.settle(dur).await;
             self.end_of_step_checks();
         }
